@@ -345,6 +345,7 @@ def run_one(run):
                     except Exception as e:  # noqa: BLE001
                         bad = [("unreadable", f"{type(e).__name__}: {e}")]
                     if bad and fired:
+                        run.scenario.setdefault("faults_fired", []).append({"store": fp[0], "op": fp[1], "key": fp[2], "occurrence": fp[3], "kind": fp[4]})
                         run.violate("write-fault-raises-or-exact", sigw(wl, bad[0][0], "write-fault", {"op": fp[1], "fault": fp[4], "key_kind": keykind(fp[2])}),
                                     f"{fp[4]} injected on {fp[0]}.{fp[1]}({fp[2]!r}) #{fp[3]}: to_zarr returned normally but the stored data is "
                                     f"wrong: {bad[0][1]}")
